@@ -3,6 +3,7 @@ package world
 import (
 	"context"
 	"encoding/hex"
+	"encoding/json"
 	"fmt"
 	"math/big"
 	"strings"
@@ -13,10 +14,12 @@ import (
 	"github.com/elnosh/gonuts/cashu/nuts/nut04"
 	"github.com/elnosh/gonuts/cashu/nuts/nut05"
 	"github.com/elnosh/gonuts/cashu/nuts/nut07"
+	"github.com/elnosh/gonuts/cashu/nuts/nut09"
 	"github.com/elnosh/gonuts/cashu/nuts/nut20"
 	"github.com/elnosh/gonuts/mint/storage"
 
 	"verif/harness/dbproxy"
+	"verif/harness/httpx"
 	"verif/harness/lnmodel"
 	"verif/harness/ref"
 )
@@ -774,7 +777,7 @@ func (w *World) statusAnsweredTruth(from int) bool {
 
 // CheckState queries proof states and reconciles the model of pending melts with what the mint resolved.
 func (w *World) CheckState(ys []string) ([]nut07.ProofState, error) {
-	st, err := w.Mint.ProofsStateCheck(ys)
+	st, err := w.proofsStateCheck(ys)
 	w.M.Steps++
 	if err != nil {
 		return nil, err
@@ -870,9 +873,46 @@ func (w *World) ResyncProofStates(inputs cashu.Proofs, q *MMeltQuote) {
 }
 
 func (w *World) Restore(msgs cashu.BlindedMessages) (cashu.BlindedMessages, cashu.BlindedSignatures, error) {
+	if w.Cfg.ReadsViaHTTP && w.Srv != nil {
+		body, _ := json.Marshal(nut09.PostRestoreRequest{Outputs: msgs})
+		r := httpx.Do(w.Handler(), "POST", "/v1/restore", body, "application/json")
+		w.M.Steps++
+		if r.Panic != nil {
+			return nil, nil, fmt.Errorf("handler panic: %v", r.Panic)
+		}
+		if r.Status != 200 {
+			return nil, nil, fmt.Errorf("HTTP %d %s", r.Status, r.Body)
+		}
+		var resp nut09.PostRestoreResponse
+		if err := json.Unmarshal(r.Body, &resp); err != nil {
+			return nil, nil, fmt.Errorf("undecodable restore response: %v", err)
+		}
+		return resp.Outputs, resp.Signatures, nil
+	}
 	o, s, err := w.Mint.RestoreSignatures(msgs)
 	w.M.Steps++
 	return o, s, err
+}
+
+// proofsStateCheck asks the mint for proof states, through the HTTP handler when the configuration says so (what
+// wallets see; the handler layer may keep answers).
+func (w *World) proofsStateCheck(ys []string) ([]nut07.ProofState, error) {
+	if w.Cfg.ReadsViaHTTP && w.Srv != nil {
+		body, _ := json.Marshal(nut07.PostCheckStateRequest{Ys: ys})
+		r := httpx.Do(w.Handler(), "POST", "/v1/checkstate", body, "application/json")
+		if r.Panic != nil {
+			return nil, fmt.Errorf("handler panic: %v", r.Panic)
+		}
+		if r.Status != 200 {
+			return nil, fmt.Errorf("HTTP %d %s", r.Status, r.Body)
+		}
+		var resp nut07.PostCheckStateResponse
+		if err := json.Unmarshal(r.Body, &resp); err != nil {
+			return nil, fmt.Errorf("undecodable checkstate response: %v", err)
+		}
+		return resp.States, nil
+	}
+	return w.Mint.ProofsStateCheck(ys)
 }
 
 // ---------------------------------------------------------------- ledger (C02)
